@@ -134,7 +134,7 @@ OnEv(m, ev) ==
 OnWInv(m, ev) ==
   LET openNow == m.opened \ m.closed
       c == [call |-> ev.call, g |-> ev.g, kind |-> ev.kind, target |-> ev.target, tep |-> ev.tep, tinst |-> ev.tinst,
-            tag |-> ev.tag, bad |-> ev.bad, seq |-> ev.seq, openAtInvoke |-> openNow, closedAtInvoke |-> m.closed,
+            tag |-> ev.tag, bad |-> ev.bad, fv |-> ev.fv, seq |-> ev.seq, openAtInvoke |-> openNow, closedAtInvoke |-> m.closed,
             closingAtInvoke |-> m.closing]
   IN [m EXCEPT !.calls = Append(@, c)]
 
@@ -209,7 +209,7 @@ OnOutTagged(m, ev, f) ==
               m3 == Check(m2, "C11.reaches_only_the_addressed_channels", MayReachWire(m, c, Wire(ev)), ev)
               m4 == Check(m3, "C11.fifo_per_writer_per_channel", c.call > lastCall, ev)
               m5 == IF IsFrameKind(c)
-                    THEN Check(m4, "C11.forwarded_frame_keeps_its_header", f.sys = 77 /\ f.comp = 88 /\ f.seq = tag % 256, ev)
+                    THEN Check(m4, "C11.forwarded_frame_keeps_its_header", f.sys = 77 /\ f.comp = 88 /\ f.seq = tag % 256 /\ f.v = c.fv, ev)
                     ELSE AfterOrig(ApplyClauses(m4, OrigClauses(m4, ev, f, TagDef), ev), ev, f)
           IN [m5 EXCEPT !.outs = Put(@, Wire(ev), Append(prev, [tag |-> tag, g |-> c.g, call |-> c.call, seq |-> ev.seq]))]
 
